@@ -5,7 +5,10 @@
  * usage: h_bbfile <schedule> <trace-out> [--keep DIR] [--batch N]
  *
  * schedule ops (one per line):
- *   Init <size>                       (qb_log_init once per process) close the blackbox, QB_LOG_CONF_SIZE, open it again
+ *   Init <size> [<maxline>]           (qb_log_init once per process) close the blackbox, QB_LOG_CONF_SIZE (and
+ *                                     QB_LOG_CONF_MAX_LINE_LEN, default 512), open it again
+ *   InitAll <size>                    the same, and the blackbox takes every message (filter "*" at LOG_TRACE)
+ *   DumpAll                           dump and report which of this harness's records the dump holds, in order
  *   Log <prio> <fn> <tags> <fk> <sz>  one numbered record (qb_log_from_external_source)
  *   Dump                              qb_log_blackbox_write_to_file
  *   Print <trunc> <marker> <ws> <wp> <rp> <ver> <hash> <cj> <creg> <ckind>
@@ -100,13 +103,14 @@ static void tsproj(time_t sec, long long msec, long long *out)
 }
 static void put_rec(const struct rec *r) { vt_lb(); for (int i = 0; i < 10; i++) vt_i(r->f[i]); vt_le(); }
 
-static char litfmt[8][600];
+static char litfmt[8][3100];
 static int log_up;
 /* The log system is initialised once per process; "Init" closes the blackbox and opens a
  * fresh ring of the requested size.  (qb_log_fini/qb_log_init per history would walk into a
  * libqb limit unrelated to this property: log_dcs.c never resets callsite_arr_next, so
  * dynamic call sites are used up across re-initialisations and _log_dcs_new_cs asserts.) */
-static void do_init(int size)
+static int cur_maxline = 512, all_mode;
+static void do_init(int size, int maxline, int all)
 {
 	int rc3 = 0;
 	if (!log_up) {
@@ -116,20 +120,38 @@ static void do_init(int size)
 		log_up = 1;
 	}
 	qb_log_ctl(QB_LOG_BLACKBOX, QB_LOG_CONF_ENABLED, QB_FALSE);
+	/* InitAll: the blackbox takes everything, the library's own trace messages included (they are not records of this
+	 * harness: DumpAll leaves them out of its projection) */
+	if (all != all_mode) {
+		/* (leaving: a REMOVE with text "*" takes out the first stored rule of that type, whichever it is -- so the
+		 * rules are cleared and the harness's own one is added again) */
+		if (all) rc3 |= qb_log_filter_ctl(QB_LOG_BLACKBOX, QB_LOG_FILTER_ADD, QB_LOG_FILTER_FILE, "*", LOG_TRACE);
+		else {
+			rc3 |= qb_log_filter_ctl(QB_LOG_BLACKBOX, QB_LOG_FILTER_CLEAR_ALL, QB_LOG_FILTER_FILE, "*", LOG_TRACE);
+			rc3 |= qb_log_filter_ctl(QB_LOG_BLACKBOX, QB_LOG_FILTER_ADD, QB_LOG_FILTER_FILE, SRCFILE, LOG_TRACE);
+		}
+		all_mode = all;
+	}
+	if (maxline <= 0) maxline = 512;
+	if (maxline > 3000) maxline = 3000;
+	int rc0 = qb_log_ctl(QB_LOG_BLACKBOX, QB_LOG_CONF_MAX_LINE_LEN, maxline);
+	cur_maxline = maxline;
 	int rc1 = qb_log_ctl(QB_LOG_BLACKBOX, QB_LOG_CONF_SIZE, size);
 	int rc2 = qb_log_ctl(QB_LOG_BLACKBOX, QB_LOG_CONF_ENABLED, QB_TRUE);
 	inited = 1; nlog = 0;
-	vt_ev("Init"); vt_i(size); vt_res(); vt_i(rc1 == 0 && rc2 == 0 && rc3 == 0); vt_end();
+	vt_ev("Init"); vt_i(size); vt_res(); vt_i(rc0 == 0 && rc1 == 0 && rc2 == 0 && rc3 == 0); vt_end();
 }
 static void do_fini(void) { if (inited) { qb_log_ctl(QB_LOG_BLACKBOX, QB_LOG_CONF_ENABLED, QB_FALSE); inited = 0; } }
 
 static void do_log(int prio, int fn, long long tags, int fk, int sz)
 {
-	static char pad[1024], pad2[1024], expect[2048];
+	static char pad[4096], pad2[4096], expect[8192];
 	struct rec r;
 	int id = ++nlog;
-	uint32_t line = 1 + (uint32_t)(((prio * 131 + fn * 31 + (int)(tags % 97) * 7 + fk * 3 + sz) * 37) % 9973);
-	if (sz > 460) sz = 460;
+	/* (file, line) names a call site: the line number determines the function (and so do priority, format kind and size class,
+	 * which are part of the call site's identity for the library: they are folded in as well) */
+	uint32_t line = 1 + (uint32_t)((((prio * 131 + (int)(tags % 97) * 7) * 37) % 331) * 30 + (uint32_t)((fk * 7 + sz) % 10) * 3 + (uint32_t)fn);
+	if (sz > cur_maxline - 52) sz = cur_maxline - 52;     /* 460 with the default line length of 512 */
 	for (int i = 0; i < sz; i++) { pad[i] = 'a' + (i + id) % 26; pad2[i] = 'A' + (i * 7 + id) % 26; }
 	vsec = 1600000000LL + (long long)id * 4001; vusec = ((long long)id * 137911) % 1000000;
 	unsigned x = ((unsigned)id * 2654435761u) & 0x7fffffff;
@@ -152,7 +174,7 @@ static void do_log(int prio, int fn, long long tags, int fk, int sz)
 	default: {
 		/* literal-only format of the requested size (the format string is the message) */
 		char *f = litfmt[id % 8];
-		int n = snprintf(f, 600, "lit%d:", sz);
+		int n = snprintf(f, 3100, "lit%d:", sz);
 		for (int i = 0; i < sz; i++) f[n + i] = 'k' + (i % 11);
 		f[n + sz] = 0;
 		qb_log_from_external_source(FN[fn], SRCFILE, f, prio, line, (uint32_t)tags);
@@ -793,6 +815,33 @@ static void do_dump(void)
 	vt_ev("Dump"); vt_res(); vt_i(rc > 0); vt_i(rc == flen); vt_i(ok ? P.ws : 0); vt_i(ok ? P.nch : -1); vt_end();
 }
 
+/* DumpAll: dump, then project the dump onto the records of this harness's own call sites, in ring order:
+ * [priority, function, line, tags] of every chunk whose function name is one of ours (what else the blackbox was
+ * told to take -- the library's own messages under InitAll -- is left out) */
+static void do_dump_all(void)
+{
+	unlink(dumppath);
+	ssize_t rc = qb_log_blackbox_write_to_file(dumppath);
+	int ok = rc > 0 && load_dump() == 0;
+	have_dump = 0;
+	vt_ev("DumpAll"); vt_res(); vt_i(ok); vt_i(ok ? P.ws : 0);
+	vt_lb();
+	for (int j = 0; ok && j < P.nch; j++) {
+		static uint8_t d[400];
+		uint32_t sz = P.ch[j].size; if (sz > sizeof(d)) sz = sizeof(d);
+		if (sz < 14) continue;
+		rcopy_out(&P, P.b, P.ch[j].doff, d, sz);
+		uint32_t fnsz = rd32(d + 9);
+		if (fnsz == 0 || 13 + fnsz > sz) continue;
+		int fi = -1;
+		for (int i = 0; i < 3; i++) if (strlen(FN[i]) + 1 == fnsz && !memcmp(d + 13, FN[i], fnsz)) fi = i;
+		if (fi < 0) continue;
+		vt_lb(); vt_i(d[8]); vt_i(fi); vt_i(rd32(d)); vt_i(rd32(d + 4) & 0x7fffffff); vt_le();
+	}
+	vt_le();
+	vt_end();
+}
+
 static void isolate_shm(void)
 {
 	if (unshare(CLONE_NEWNS) == 0 && mount("none", "/", NULL, MS_REC | MS_PRIVATE, NULL) == 0 &&
@@ -822,7 +871,9 @@ int main(int argc, char **argv)
 		const char *op = L.tok[0];
 		if (strncmp(op, "Print", 5)) flush_queue();
 		if (!strcmp(op, "Reset")) { do_fini(); have_dump = 0; have_old = 0; vt_simple("Reset"); }
-		else if (!strcmp(op, "Init")) { do_fini(); have_dump = 0; have_old = 0; do_init((int)vt_argi(&L, 1)); }
+		else if (!strcmp(op, "Init")) { do_fini(); have_dump = 0; have_old = 0; do_init((int)vt_argi(&L, 1), L.n > 2 ? (int)vt_argi(&L, 2) : 0, 0); }
+		else if (!strcmp(op, "InitAll")) { do_fini(); have_dump = 0; have_old = 0; do_init((int)vt_argi(&L, 1), 0, 1); }
+		else if (!strcmp(op, "DumpAll")) do_dump_all();
 		else if (!strcmp(op, "Log")) do_log((int)vt_argi(&L, 1), (int)vt_argi(&L, 2) % 3, vt_argi(&L, 3), (int)vt_argi(&L, 4), (int)vt_argi(&L, 5));
 		else if (!strcmp(op, "Dump")) do_dump();
 		else if (!strcmp(op, "Print")) {
